@@ -68,7 +68,16 @@ pub const KEYS: &[(&str, &str, &str)] = &[
     ("nasty", "nasty.seps", "ls\u{2028}ps\u{2029}end [{L}]"),
     ("nasty", "nasty.single", "it's 'quoted' `backtick` ${x} [{L}]"),
     ("nasty", "nasty.amp", "a & b < c > d [{L}]"),
+    ("nasty", "nasty.script_upper", "x </SCRIPT> y </ScRiPt > z <SCRIPT>w [{L}]"),
+    ("nasty", "nasty.comment_script", "<!--<script> still inside </script --> [{L}]"),
+    // a unit whose table is empty for en and de (only an interpolation), non-empty for the other locales
+    ("bare", "bare.only", "7{BARE}"),
 ];
+
+fn expected_text(key: usize, locale: &str) -> String {
+    let bare = if locale == "en" || locale == "de" { String::new() } else { format!(" [{locale}]") };
+    KEYS[key % KEYS.len()].2.replace("{L}", locale).replace("{BARE}", &bare)
+}
 
 fn text_node(i18n: leptos_i18n::I18nContext<Locale>, key: usize, n: usize) -> AnyView {
     let id = n.to_string();
@@ -88,7 +97,10 @@ fn text_node(i18n: leptos_i18n::I18nContext<Locale>, key: usize, n: usize) -> An
         6 => view! { <p data-n=id>{t!(i18n, nasty.backslash)}</p> }.into_any(),
         7 => view! { <p data-n=id>{t!(i18n, nasty.seps)}</p> }.into_any(),
         8 => view! { <p data-n=id>{t!(i18n, nasty.single)}</p> }.into_any(),
-        _ => view! { <p data-n=id>{t!(i18n, nasty.amp)}</p> }.into_any(),
+        9 => view! { <p data-n=id>{t!(i18n, nasty.amp)}</p> }.into_any(),
+        10 => view! { <p data-n=id>{t!(i18n, nasty.script_upper)}</p> }.into_any(),
+        11 => view! { <p data-n=id>{t!(i18n, nasty.comment_script)}</p> }.into_any(),
+        _ => view! { <p data-n=id>{t!(i18n, bare.only, x = "7")}</p> }.into_any(),
     }
 }
 
@@ -574,7 +586,7 @@ fn expect(r: &Request) -> Expect {
             Node::Text { key } => {
                 let k = KEYS[*key % KEYS.len()];
                 must.insert((LOCS[main_locale].to_string(), k.0.to_string()));
-                texts.push((n, k.2.replace("{L}", LOCS[main_locale]), false));
+                texts.push((n, expected_text(*key, LOCS[main_locale]), false));
             }
             Node::Sub { init, keys } => {
                 // created during construction: explicit initial locale, else the parent's locale at that moment
@@ -582,13 +594,13 @@ fn expect(r: &Request) -> Expect {
                 for (j, key) in keys.iter().enumerate() {
                     let k = KEYS[*key % KEYS.len()];
                     must.insert((LOCS[l].to_string(), k.0.to_string()));
-                    texts.push(((n + 1) * 1000 + j + 1, k.2.replace("{L}", LOCS[l]), false));
+                    texts.push(((n + 1) * 1000 + j + 1, expected_text(*key, LOCS[l]), false));
                 }
             }
             Node::Suspense { key, .. } => {
                 let k = KEYS[*key % KEYS.len()];
                 may.insert((LOCS[main_locale].to_string(), k.0.to_string()));
-                texts.push((n, k.2.replace("{L}", LOCS[main_locale]), true));
+                texts.push((n, expected_text(*key, LOCS[main_locale]), true));
             }
         }
     }
